@@ -139,7 +139,7 @@ impl CovComputer {
 
                 #[cfg(feature = "verif_hooks")]
                 ktio::verif::emit("cov.loop_end", &[buffer.len() as u64, total as u64]);
-                if total > 0 {
+                if !buffer.is_empty() {
                     #[cfg(feature = "verif_hooks")]
                     ktio::verif::emit("cov.batch_flush", &[buffer.len() as u64, 1]);
                     // optimise this with pre-sized string
